@@ -63,8 +63,9 @@ type GenDecl struct {
 }
 
 type Flt struct {
-	Kind int // 0 type, 1 or, 2 and
+	Kind int // 0 type, 1 or, 2 and, 3 name test, 4 subtype test
 	Ty   int
+	Name string // kinds 3, 4: the name / subtype the value must carry
 	Subs []Flt
 }
 
@@ -459,6 +460,12 @@ func (rt *runtimeT) fltOf(f *Flt) am.FilterFunc {
 	switch f.Kind {
 	case 0:
 		return am.FilterType(tyOf[f.Ty])
+	case 3:
+		want := f.Name
+		return func(v am.Value) bool { return v.Name == want }
+	case 4:
+		want := f.Name
+		return func(v am.Value) bool { return v.Subtype == want }
 	case 1:
 		var fs []am.FilterFunc
 		for i := range f.Subs {
@@ -481,6 +488,10 @@ func fltTerm(f *Flt) string {
 	switch f.Kind {
 	case 0:
 		return fmt.Sprintf("(FltType %s)", z(f.Ty))
+	case 3:
+		return fmt.Sprintf("(FltName %s)", str(f.Name))
+	case 4:
+		return fmt.Sprintf("(FltSub %s)", str(f.Name))
 	case 1, 2:
 		var ps []string
 		for i := range f.Subs {
